@@ -39,7 +39,7 @@ func (c07) ID() string       { return "C07" }
 func (c07) New() interface{} { return &C07Script{} }
 func (c07) Info() core.Info {
 	return core.Info{
-		Runs: map[string]int{"quick": 150000, "thorough": 12000000},
+		Runs: map[string]int{"quick": 1500000, "thorough": 100000000},
 		Rule: "Each run builds one abstract PAT (0..42 entries, distinct program numbers incl. optional program 0, 13-bit PIDs biased above 255, random reserved bits), serialises it with the reference serialiser into a PID-0 packet (with or without adaptation field), places it by a scripted multiplexer among 0..30 packets of other PIDs (optionally followed by a different later PAT, optionally absent, optionally cut by end of stream) and reads it back through ReadPAT over a SimReader with scripted Read outcomes; the payload and 188-byte-packet carriers are decoded in the same run and compared. Non-trivial = at least one reach probe fired.",
 		Real: []string{"psi.ReadPAT", "psi.NewPAT", "pat.NumPrograms/ProgramMap/SPTSpmtPID", "psi.IsPMT", "packet.Payload", "io.ReadFull (stdlib)"},
 		Stub: []string{"PAT source + reference serialiser/CRC", "multiplexer (scripted picks)", "SimReader"},
